@@ -6,26 +6,26 @@ Options, further functions declared later).
 -/
 namespace Utv.C19
 
-mutual
-/-- every data class a type mentions has an index below `n` -/
-def Ty.scoped (n : Nat) : Ty → Bool
-  | .data k => k < n
-  | .seq _ t => t.scoped n
-  | .map t => t.scoped n
-  | .opt t => t.scoped n
-  | .con t _ _ _ => t.scoped n
-  | .tup ts => scopedL n ts
-  | _ => true
-def scopedL (n : Nat) : List Ty → Bool
-  | [] => true
-  | t :: ts => t.scoped n && scopedL n ts
-end
-
-def Decl.scoped (n : Nat) (d : Decl) : Bool :=
-  d.fields.all (fun f => f.ty.scoped n) && (match d.ret with | some (_, t) => t.scoped n | none => true)
-
 /-- no declaration of `E` refers (by forward reference) to a class that is not in `E` -/
 def Env.closed (E : Env) : Bool := E.all (Decl.scoped E.length)
+
+mutual
+theorem scoped_mono {n m : Nat} : ∀ {t : Ty}, t.scoped n = true → n ≤ m → t.scoped m = true
+  | .any, _, _ => rfl
+  | .int, _, _ => rfl
+  | .bare _, _, _ => rfl
+  | .data k, h, hm => by simp only [Ty.scoped, decide_eq_true_eq] at h ⊢; omega
+  | .seq _ t, h, hm => by simp only [Ty.scoped] at h ⊢; exact scoped_mono h hm
+  | .map t, h, hm => by simp only [Ty.scoped] at h ⊢; exact scoped_mono h hm
+  | .opt t, h, hm => by simp only [Ty.scoped] at h ⊢; exact scoped_mono h hm
+  | .con t _ _ _, h, hm => by simp only [Ty.scoped] at h ⊢; exact scoped_mono h hm
+  | .tup ts, h, hm => by simp only [Ty.scoped] at h ⊢; exact scopedL_mono h hm
+theorem scopedL_mono {n m : Nat} : ∀ {ts : List Ty}, scopedL n ts = true → n ≤ m → scopedL m ts = true
+  | [], _, _ => rfl
+  | t :: ts, h, hm => by
+    simp only [scopedL, Bool.and_eq_true] at h ⊢
+    exact ⟨scoped_mono h.1 hm, scopedL_mono h.2 hm⟩
+end
 
 theorem scopedL_mem {n : Nat} : ∀ {ts : List Ty}, scopedL n ts = true → ∀ t ∈ ts, t.scoped n = true
   | [], _, t, h => by simp at h
@@ -68,7 +68,7 @@ theorem fieldsFF_congr (f g : Ty → Val → Comp) (ro : ROpts) (ks : List Strin
       simp only
       split
       · rfl
-      · cases getDefault ro fl.dflt s with
+      · cases getDefaultAt false fl.defer ro fl.dflt s with
         | mk od s1 =>
           cases od with
           | none => simp only; rw [ih s1]
@@ -104,6 +104,14 @@ theorem parseData_congr (f g : Ty → Val → Comp) (ro : ROpts) (d : Decl)
   · rw [dataLoop_congr f g d.fields h ks xs s]
   · exact fieldsFF_congr f g ro ks xs d.fields h s
 
+theorem parseInto_congr (f g : Ty → Val → Comp) (ro : ROpts) (d : Decl)
+    (h : ∀ fl ∈ d.fields, f fl.ty = g fl.ty) (ks : List String) (xs : List Val) :
+    parseInto f ro d ks xs = parseInto g ro d ks xs := by
+  unfold parseInto
+  have : (fun s => parseData f ro d ks xs s) = (fun s => parseData g ro d ks xs s) :=
+    funext (fun s => parseData_congr f g ro d h ks xs s)
+  simp only [this]
+
 theorem closed_lookup {E : Env} (hE : E.closed = true) {k : Nat} {d : Decl} (h : E[k]? = some d) :
     d.scoped E.length = true := by
   have hd : d ∈ E := List.mem_of_getElem? h
@@ -121,13 +129,18 @@ theorem initWith_append (f g : Ty → Val → Comp) (ro : ROpts) (E ds : Env) (h
     simp only
     have hsc := closed_lookup hE hd
     simp only [Decl.scoped, Bool.and_eq_true, List.all_eq_true] at hsc
-    rw [parseData_congr f g ro d (fun fl hfl => hfg fl.ty (hsc.1 fl hfl)) ks xs s]
+    have hpi : ∀ ks xs, parseInto f ro d ks xs = parseInto g ro d ks xs :=
+      fun ks xs => parseInto_congr f g ro d (fun fl hfl => hfg fl.ty (hsc.1 fl hfl)) ks xs
+    simp only [hpi]
 
 /-- **Declaration independence of the transformer**: for a type that only mentions declarations of `E`, the
 conversion is the same function in `E` and in every extension of `E`. -/
-theorem conv_append (E ds : Env) (hE : E.closed = true) :
+theorem guardL_congr (L : Ty → Cid) (f g : Ty → Val → Comp) (t : Ty) (h : f t = g t) : guardL L f t = guardL L g t := by
+  funext v s; simp [guardL, h]
+
+theorem conv_append (L : Ty → Cid) (E ds : Env) (hE : E.closed = true) :
     ∀ (fuel : Nat) (o : Opts) (ty : Ty), ty.scoped E.length = true →
-      conv (E ++ ds) o fuel ty = conv E o fuel ty := by
+      conv L (E ++ ds) o fuel ty = conv L E o fuel ty := by
   intro fuel
   induction fuel with
   | zero => intro o ty _; funext v s; simp [conv]
@@ -146,7 +159,7 @@ theorem conv_append (E ds : Env) (hE : E.closed = true) :
       simp only [conv, ih o t hty]
     | tup ts =>
       simp only [Ty.scoped] at hty
-      have hz : ∀ xs s, zipC (conv (E ++ ds) o fuel) ts xs s = zipC (conv E o fuel) ts xs s :=
+      have hz : ∀ xs s, zipC (conv L (E ++ ds) o fuel) ts xs s = zipC (conv L E o fuel) ts xs s :=
         zipC_congr _ _ ts (fun t ht => ih o t (scopedL_mem hty t ht))
       simp only [conv, hz]
     | opt t =>
@@ -157,16 +170,16 @@ theorem conv_append (E ds : Env) (hE : E.closed = true) :
       simp only [conv, ih o t hty]
     | data k =>
       simp only [Ty.scoped, decide_eq_true_eq] at hty
-      have hi : ∀ ks xs s, initWith (conv (E ++ ds) {} fuel) {} (E ++ ds) k ks xs s
-          = initWith (conv E {} fuel) {} E k ks xs s :=
-        fun ks xs s => initWith_append _ _ {} E ds hE (fun t ht => ih {} t ht) k hty ks xs s
+      have hi : ∀ ks xs s, initWith (guardL L (conv L (E ++ ds) {} fuel)) {} (E ++ ds) k ks xs s
+          = initWith (guardL L (conv L E {} fuel)) {} E k ks xs s :=
+        fun ks xs s => initWith_append _ _ {} E ds hE (fun t ht => guardL_congr L _ _ t (ih {} t ht)) k hty ks xs s
       simp only [conv, hi]
 
 /-- … and of a whole parse: a target declared in `E` parses the same whatever is declared after it. -/
-theorem callWith_append (optsOf : List (Option Opts) → Nat → Opts) (ro : ROpts) (E ds : Env)
+theorem callWith_append (optsOf : List (Option Opts) → Nat → Opts) (L : Ty → Cid) (ro : ROpts) (E ds : Env)
     (hE : E.closed = true) (target : Nat) (ht : target < E.length) (wrapper : Nat)
-    (ks : List String) (xs : List Val) (s : St) :
-    callWith optsOf ro (E ++ ds) target wrapper ks xs s = callWith optsOf ro E target wrapper ks xs s := by
+    (ks : List String) (xs : List Val) (s : St) (rb : Bool) :
+    callWith optsOf L rb ro (E ++ ds) target wrapper ks xs s = callWith optsOf L true ro E target wrapper ks xs s := by
   simp only [callWith]
   rw [List.getElem?_append_left ht]
   cases hd : E[target]? with
@@ -174,12 +187,19 @@ theorem callWith_append (optsOf : List (Option Opts) → Nat → Opts) (ro : ROp
   | some d =>
     simp only
     have hsc := closed_lookup hE hd
+    have hsc' : d.scoped (E ++ ds).length = true := by
+      simp only [Decl.scoped, Bool.and_eq_true, List.all_eq_true] at hsc ⊢
+      refine ⟨fun f hf => scoped_mono (hsc.1 f hf) (by simp), ?_⟩
+      cases hr : d.ret with
+      | none => rfl
+      | some rt => have := hsc.2; rw [hr] at this; exact scoped_mono this (by simp)
+    simp only [hsc', Bool.not_true, Bool.and_false, Bool.false_and, Bool.false_eq_true, ↓reduceIte]
     simp only [Decl.scoped, Bool.and_eq_true, List.all_eq_true] at hsc
     split
-    · rw [parseData_congr (conv (E ++ ds) (optsOf d.wrappers wrapper) fuelDefault)
-        (conv E (optsOf d.wrappers wrapper) fuelDefault) {} { d with dfs := false }
-        (fun fl hfl => conv_append E ds hE fuelDefault _ fl.ty (hsc.1 fl hfl)) ks xs s]
-      cases parseData (conv E (optsOf d.wrappers wrapper) fuelDefault) {} { d with dfs := false } ks xs s with
+    · rw [parseInto_congr (guardL L (conv L (E ++ ds) (optsOf d.wrappers wrapper) fuelDefault))
+        (guardL L (conv L E (optsOf d.wrappers wrapper) fuelDefault)) {} { d with dfs := false }
+        (fun fl hfl => guardL_congr L _ _ _ (conv_append L E ds hE fuelDefault _ fl.ty (hsc.1 fl hfl))) ks xs]
+      cases parseInto (guardL L (conv L E (optsOf d.wrappers wrapper) fuelDefault)) {} { d with dfs := false } ks xs s with
       | mk r s1 =>
         cases r with
         | error e => rfl
@@ -192,7 +212,8 @@ theorem callWith_append (optsOf : List (Option Opts) → Nat → Opts) (ro : ROp
             simp only
             have hty : ty.scoped E.length = true := by
               have := hsc.2; rw [hr] at this; exact this
-            rw [conv_append E ds hE fuelDefault _ ty hty]
-    · exact initWith_append _ _ ro E ds hE (fun t ht' => conv_append E ds hE fuelDefault {} t ht') target ht ks xs s
+            rw [guardL_congr L _ _ ty (conv_append L E ds hE fuelDefault _ ty hty)]
+    · exact initWith_append _ _ ro E ds hE
+        (fun t ht' => guardL_congr L _ _ t (conv_append L E ds hE fuelDefault {} t ht')) target ht ks xs s
 
 end Utv.C19
